@@ -132,6 +132,10 @@ fn main() {
             hx::journal::init(arg(&args, "--journal").map(PathBuf::from));
 
             let sh = Arc::new(Shared::new(sc.clone(), known.clone(), dfs_depth > 0 || mode == "dfs", max_seconds, max_exec));
+            let dump_histories = arg(&args, "--dump-histories");
+            if dump_histories.is_some() {
+                *sh.all_histories.lock().unwrap() = Some(Vec::new());
+            }
             let stats = match mode.as_str() {
                 "dfs" => run_dfs(&sh),
                 "stateright" => run_bfs(sh.clone(), threads),
@@ -174,6 +178,12 @@ fn main() {
                 narch: hx::world::NARCH,
             };
             std::fs::write(&out_path, serde_json::to_string_pretty(&out).unwrap()).expect("write result");
+            if let Some(p) = dump_histories {
+                let mut hs = sh.all_histories.lock().unwrap().take().unwrap_or_default();
+                hs.sort_by_key(|h| (h.len(), format!("{:?}", h)));
+                hs.dedup();
+                std::fs::write(p, serde_json::to_string(&hs).unwrap()).expect("write histories");
+            }
         }
         "replay" => {
             let hist_path = arg(&args, "--history").expect("--history");
